@@ -7,8 +7,8 @@ from common import case_rng
 from framework import Finding
 
 MON = {"C01": solvermon.mon_c01, "C02": solvermon.mon_c02, "C03": solvermon.mon_c03, "C05": solvermon.mon_c05}
-CORR = {"C01": ("de", "dec", "nm", "pw", "pwb", "solve"), "C02": ("de", "dec", "nm", "pw", "pwb"), "C03": ("de", "dec", "nm", "pw", "pwb"), "C04": ("ctl", "de", "dec", "nm", "pw", "pwb", "solve"), "C05": ("ctl", "solve")}
-REQ = {"de": solvermodel.de_request, "nm": solvermodel.nm_request, "ctl": solvermodel.ctl_request, "pw": solvermodel.pw_request, "solve": solvermodel.solve_request, "pwb": solvermodel.pwb_request, "dec": solvermodel.dec_request}
+CORR = {"C01": ("de", "dec", "nm", "nmc", "pw", "pwb", "solve"), "C02": ("de", "dec", "nm", "nmc", "pw", "pwb"), "C03": ("de", "dec", "nm", "nmc", "pw", "pwb"), "C04": ("ctl", "de", "dec", "nm", "nmc", "pw", "pwb", "solve"), "C05": ("ctl", "solve")}
+REQ = {"de": solvermodel.de_request, "nm": solvermodel.nm_request, "ctl": solvermodel.ctl_request, "pw": solvermodel.pw_request, "solve": solvermodel.solve_request, "pwb": solvermodel.pwb_request, "dec": solvermodel.dec_request, "nmc": solvermodel.nmc_request}
 
 
 def spec_view(spec):
@@ -561,8 +561,18 @@ def run_shard(pid, seed, shard, ncases, tier, extra):
             line, cmp = REQ[which](spec, rec)
             if line is not None:
                 lines.append(line); cmps.append(cmp); metas.append((which, case))
+                if which == "nmc":
+                    n, why, nredec, ncfg, nidle, nreset = cmp.dec_info
+                    hist["nmc-redecorations-by-idle-steps"] = hist.get("nmc-redecorations-by-idle-steps", 0) + nidle
+                    hist["nmc-iterations"] = hist.get("nmc-iterations", 0) + n
+                    hist["nmc-redecorations-after-generation-0"] = hist.get("nmc-redecorations-after-generation-0", 0) + nredec
+                    hist["nmc-simplex-resets"] = hist.get("nmc-simplex-resets", 0) + nreset
+                    hist["nmc-stops-at:" + why] = hist.get("nmc-stops-at:" + why, 0) + 1
+                    if ncfg > 1:
+                        hist["nmc-runs-with-changed-settings"] = hist.get("nmc-runs-with-changed-settings", 0) + 1
                 if which == "dec":
-                    n, why, nredec, ncfg = cmp.dec_info
+                    n, why, nredec, ncfg, nidle = cmp.dec_info
+                    hist["dec-redecorations-by-idle-steps"] = hist.get("dec-redecorations-by-idle-steps", 0) + nidle
                     hist["dec-iterations"] = hist.get("dec-iterations", 0) + n
                     hist["dec-redecorations-after-generation-0"] = hist.get("dec-redecorations-after-generation-0", 0) + nredec
                     if ncfg > 1:
@@ -625,7 +635,7 @@ def main(pid, module, theorems, tier, seed, rule_extra, trusted_extra):
             "recorded. non-trivial = at least 3 iterations really ran (or a Solve with > 3 cost calls). " % (4 if tier == "quick" else 8)) + rule_extra
     tb = ["Lean 4.33 kernel; axioms per theorem under coverage.theorems (subset of propext, Classical.choice, Quot.sound)",
           "hand-written model S (Model/Solver.lean, Model/NelderMead.lean, Model/PowellS.lean) tied to /repo by the bit-exact replays counted under histogram model:de / model:dec / model:nm / model:pw / model:ctl",
-          "reconfigured differential-evolution runs (Set* between Steps, settings handed to Step, Steps after a stop) are replayed through Model/Reconfig.lean with the settings in force at every performed iteration (model:dec; histogram dec-runs-with-changed-settings, dec-redecorations-after-generation-0); the replay stops before the first event the model does not cover (histogram dec-stops-at:*: a replaced monitor, a Solve op, a re-decoration that re-draws an out-of-box member at random)",
+          "reconfigured differential-evolution and Nelder-Mead runs (Set* between Steps, settings handed to Step, Steps after a stop, Steps that only re-decorate because the solver is stopped) are replayed through Model/Reconfig.lean with the settings in force at every performed iteration and every re-decoration (model:dec / model:nmc; histogram *-runs-with-changed-settings, *-redecorations-after-generation-0, *-redecorations-by-idle-steps, nmc-simplex-resets: Nelder-Mead's simplex rebuild with kept energies, known finding F20, is part of the model); the replay stops before the first event the model does not cover (histogram *-stops-at:*: a replaced monitor, a Solve op, a re-decoration that re-draws an out-of-box member at random)",
           "user functions are DSL terms evaluated identically by harness/dsl.py and Model/Dsl.lean; DE trial vectors are taken from the real strategy (recorded); Powell is replayed twice: with the line searches of the real Brent as recorded oracle (model:pw) and from the initial guess alone with the Lean model of bracket/brent (Model/Brent.lean, model:pwb)",
           ] + trusted_extra
     assumptions = ["cost/penalty never return NaN (NaN traces are skipped and counted)", "constraints deterministic, idempotent and compatible with the box (generated so)",
